@@ -507,6 +507,7 @@ func genGuards(c *ctx) {
 		doBufEvo(eff, []int64{-1, -1, -1}, []int64{0, 3, 0})                  // a slow chunk: shrinks
 		doBufEvo(eff, []int64{-1, -1, -1, -1, -1}, []int64{20, 20, 20, 0, 0}) // down to the floor and up again
 		doBufEvo(eff, []int64{-1, 7, -1}, []int64{1, 2, 0})
+		doBufEvo(eff, []int64{-1, -1, -1, -1, -1, -1, -1}, []int64{50, 50, 50, 50, 50, 0, 0}) // far below the floor if there were none
 	}
 	for i := 0; i < c.pick(40, 800); i++ {
 		mb := evoLimits[c.rng.Intn(len(evoLimits))]
